@@ -11,7 +11,6 @@ import (
 	"unsafe"
 
 	"github.com/mlange-42/arche/ecs"
-	"github.com/mlange-42/arche/generic"
 )
 
 type result struct {
@@ -595,22 +594,22 @@ func (x *World) Exec(i int, op Op) map[string]interface{} {
 				switch op.R {
 				case 0:
 					v := &resT0{tk}
-					g := generic.NewResource[resT0](w)
+					g := x.gres0()
 					g.Add(v)
 					val = v
 				case 1:
 					v := &resT1{tk}
-					g := generic.NewResource[resT1](w)
+					g := x.gres1()
 					g.Add(v)
 					val = v
 				case 2:
 					v := &resT2{tk}
-					g := generic.NewResource[resT2](w)
+					g := x.gres2()
 					g.Add(v)
 					val = v
 				case 3:
 					v := &resT3{tk}
-					g := generic.NewResource[resT3](w)
+					g := x.gres3()
 					g.Add(v)
 					val = v
 				}
@@ -657,16 +656,16 @@ func (x *World) Exec(i int, op Op) map[string]interface{} {
 			if op.Api == "generic.Resource.Remove" && op.R <= 3 {
 				switch op.R {
 				case 0:
-					g := generic.NewResource[resT0](w)
+					g := x.gres0()
 					g.Remove()
 				case 1:
-					g := generic.NewResource[resT1](w)
+					g := x.gres1()
 					g.Remove()
 				case 2:
-					g := generic.NewResource[resT2](w)
+					g := x.gres2()
 					g.Remove()
 				case 3:
-					g := generic.NewResource[resT3](w)
+					g := x.gres3()
 					g.Remove()
 				}
 			} else {
@@ -694,19 +693,19 @@ func (x *World) Exec(i int, op Op) map[string]interface{} {
 			case "generic.Resource.Get":
 				switch op.R {
 				case 0:
-					g := generic.NewResource[resT0](w)
+					g := x.gres0()
 					v := g.Get()
 					got, isNil = v, v == nil
 				case 1:
-					g := generic.NewResource[resT1](w)
+					g := x.gres1()
 					v := g.Get()
 					got, isNil = v, v == nil
 				case 2:
-					g := generic.NewResource[resT2](w)
+					g := x.gres2()
 					v := g.Get()
 					got, isNil = v, v == nil
 				case 3:
-					g := generic.NewResource[resT3](w)
+					g := x.gres3()
 					v := g.Get()
 					got, isNil = v, v == nil
 				}
@@ -729,16 +728,16 @@ func (x *World) Exec(i int, op Op) map[string]interface{} {
 				has := false
 				switch op.R {
 				case 0:
-					g := generic.NewResource[resT0](w)
+					g := x.gres0()
 					has = g.Has()
 				case 1:
-					g := generic.NewResource[resT1](w)
+					g := x.gres1()
 					has = g.Has()
 				case 2:
-					g := generic.NewResource[resT2](w)
+					g := x.gres2()
 					has = g.Has()
 				case 3:
-					g := generic.NewResource[resT3](w)
+					g := x.gres3()
 					has = g.Has()
 				}
 				r.ret = b2i(has)
